@@ -263,10 +263,24 @@ def e2e_cases(ctx, rng, count):
             cal = [("today", (5, 1, 0, 0, 30, 500000)), ("month", (3, 1, 8, 0, 30, 500000)),
                    ("year", (1, 1, 12, 0, 7, 300000)), ("today", (12, 31, 0, 0, 59, 999999)),
                    ("month", (1, 1, 0, 0, 1, 0)), ("year", (1, 1, 0, 0, 0, 250000)),
-                   ("now", (2, 29, 23, 59, 59, 900000))][(i // 5) % 7]
+                   ("now", (2, 29, 23, 59, 59, 900000)),
+                   # a whole number of days (plus less than a second) after the start: elapsed time with a zero
+                   # seconds-within-the-day component
+                   ("month", (5, 3, 0, 0, 0, 400000)), ("year", (3, 1, 0, 0, 0, 999999)),
+                   ("2024-04-01T00:00:00Z", (5, 1, 0, 0, 0, 400000)), ("2024-02-10T17:45:12Z", (3, 11, 17, 45, 12, 700000)),
+                   # a drifting server clock next to the instant where a symbolic start changes its meaning
+                   # (today: 00:01:00; month / year: 00:00:00 on the 1st and 2nd)
+                   ("today", (5, 1, 0, 1, 4, 500000), "10"), ("today", (5, 1, 0, 0, 57, 500000), "-10"),
+                   ("year", (1, 2, 0, 0, 3, 500000), "10"), ("month", (3, 2, 0, 0, 3, 500000), "10"),
+                   ("month", (3, 1, 0, 0, 3, 500000), "10"), ("year", (1, 1, 0, 0, 3, 500000), "10"),
+                   ][(i // 5) % 17]
             start = cal[0]
             mo, d, h, mi, se, us = cal[1]
             now = datetime.datetime(2024, mo, d, h, mi, se, us, tzinfo=datetime.timezone.utc)
+            if len(cal) > 2:
+                opts["drift"] = cal[2]
+            else:
+                opts.pop("drift", None)
             man = "hand_made.mpd"
             if (i // 35) % 2 == 0:
                 opts["timeline"] = "1"
@@ -283,7 +297,7 @@ def e2e_cases(ctx, rng, count):
                 opts["start"] = loc.strftime("%Y-%m-%dT%H:%M:%S") + f"{'%2B' if off >= 0 else '-'}{abs(off) // 60:02d}:{abs(off) % 60:02d}"
             else:
                 opts["start"] = st_.strftime("%Y-%m-%dT%H:%M:%SZ")
-        elif i % 13 == 7:
+        elif i % 13 == 7 and i % 5 != 2:
             # a very old stream: segment numbers beyond 2^32
             opts["start"] = rng.choice(["1000-01-01T00:00:00Z", "0100-06-01T12:00:00Z", "1479-12-31T23:59:59Z"])
         else:
@@ -328,7 +342,7 @@ def ch_e2e(ctx) -> Channel:
     default_leeway = int(OptionsRepository.get_default_options().leeway)
     lines, recs = [], []
     with appboot.Clock("2023-01-01T00:00:00Z") as clock:
-        for stream, url, now, opts in e2e_cases(ctx, rng, ctx.scale(55, 880)):
+        for stream, url, now, opts in e2e_cases(ctx, rng, ctx.scale(90, 900)):
             trk = segchecks.tracks(app, stream)
             mpd, status, fetches = segchecks.walk_manifest(app, client, clock, stream, url, now, rng,
                                                            per_rep=ctx.scale(5, 12), want_init=True)
